@@ -53,6 +53,13 @@ func execProject(c *core.Ctx, worker string, p *gen.Project, idx int, skip strin
 	args = append(args, p.Args()...)
 	out, code, to := core.Run(root, nil, timeout, nil, worker, args...)
 	rc.Exit, rc.TimedOut, rc.Stderr = code, to, out
+	// the result files are part of what the run shows: scan them for non finite tokens
+	nf, files := scanResultFiles(filepath.Join(root, "RESULT_"+p.Name))
+	if f, err := os.OpenFile(rc.Trace, os.O_APPEND|os.O_WRONLY, 0644); err == nil {
+		b, _ := json.Marshal(map[string]interface{}{"ev": "files.scan", "run": p.Name, "files": files, "nonfinite": nf, "finite": nf == 0, "inrange": true, "inrangeN": true})
+		f.Write(append(b, '\n'))
+		f.Close()
+	}
 	rc.Events = core.CountLines(rc.Trace)
 	return rc
 }
@@ -270,4 +277,25 @@ func (s *runTraceStats) cover(c *core.Ctx) {
 	c.Cover("branches", map[string]int{"days": s.Days, "subSteps": s.SubSteps, "multiStepDays": s.MultiStepDays, "maxSteps": s.MaxSteps,
 		"drainFlowSubSteps": s.DrainFlowSteps, "upwardAtBottomSubSteps": s.UpwardBottom, "infiltrationSubSteps": s.Infiltration,
 		"evaporationSubSteps": s.Evaporation, "overwriteDaysSkipped": s.OverwriteDays, "growingDays": s.GrowingDays, "failedRuns": s.FailedRuns})
+}
+
+// scanResultFiles counts NaN / Inf tokens in the result files of a run.
+func scanResultFiles(dir string) (nonfinite int, files int) {
+	ents, err := os.ReadDir(dir)
+	if err != nil {
+		return 0, 0
+	}
+	for _, e := range ents {
+		if e.IsDir() {
+			continue
+		}
+		b, err := os.ReadFile(filepath.Join(dir, e.Name()))
+		if err != nil {
+			continue
+		}
+		files++
+		s := string(b)
+		nonfinite += strings.Count(s, "NaN") + strings.Count(s, "Inf")
+	}
+	return
 }
